@@ -17,7 +17,7 @@ from ..core import Check, Outcome, fail, crash_bucket
 MODULES = [
     "os", "os.path", "json", "typing", "collections", "collections.abc", "uuid", "decimal", "fractions",
     "dataclasses", "enum", "math", "krrood", "krrood.utils", "krrood.adapters", "krrood.adapters.json_serializer",
-    "krrood.singleton", "kverif", "kverif.models", "kverif.models.json_tree",
+    "krrood.singleton", "kverif", "kverif.models", "kverif.models.json_tree", "kverif.models.json_tree_b",
 ]
 ATTRS = [
     # functions
@@ -43,6 +43,8 @@ RESOLVING = [  # module.attribute pairs that exist, by kind of attribute
     "krrood.adapters.json_serializer.JSONSerializableTypeRegistry", "dataclasses.MISSING",
     "math.pi", "os.sep", "kverif.models.json_tree.AN_INSTANCE", "krrood.adapters.json_serializer.leaf_types",
     "kverif.models.json_tree.CLASSES", "os.__name__", "os.__dict__", "kverif.models.json_tree._reg",
+    # plain classes that share their simple name with a registered type
+    "kverif.models.json_tree_b.UUID", "kverif.models.json_tree_b.Decimal",
 ]
 WARM = ["Node0", "Node1", "Node3", "Leaf", "Pair", "Decimal", "Fraction", "UUID", "datetime", "Celsius"]
 JUNK = ["zz_nomod_a", "zz_nomod_b.c", "NoSuchClass", "x", "_", "0", "class", "é", "a b"]
@@ -58,7 +60,7 @@ def resolves_to_deserialisable(tag) -> bool:
     if not isinstance(tag, str) or "." not in tag:
         return False
     mod, _, name = tag.rpartition(".")
-    if not mod or mod.startswith(".") or mod not in MODULES + ["kverif.models.json_tree"]:
+    if not mod or mod.startswith(".") or mod not in MODULES:
         return False
     try:
         m = importlib.import_module(mod)
@@ -118,7 +120,7 @@ class C19(Check):
     }
 
     def setup_worker(self):
-        from ..models import json_tree  # noqa: F401
+        from ..models import json_tree, json_tree_b  # noqa: F401
 
     def strategy(self, tier, exclude):
         ident = st.one_of(st.sampled_from(ATTRS), st.sampled_from(JUNK), st.sampled_from(MODULES), st.sampled_from(WARM),
